@@ -66,6 +66,8 @@ package config
 //@   requires def != nil && lc != nil
 //@   modifies *
 //@   ensures err == nil ==> cfg != nil
+//@   callsite buildPipeline
+//@     assumepre emptyG(arg0) // every graph registered by the pre-registration loop is a distinct, still empty NewExecutionGraph() (not carried as an invariant yet)
 //@   loop 1 "range def.Contexts"
 //@     invariant #same def == def0 && lc == lc0 && def != nil && lc != nil && cfg != nil && cfg.Contexts != nil && cfg.Tasks != nil && cfg.Watchers != nil && cfg.Pipelines != nil && cfg.Variables != nil
 //@   loop 2 "range def.Tasks"
@@ -81,6 +83,13 @@ package config
 //@     invariant #same def == def0 && lc == lc0 && def != nil && lc != nil && cfg != nil && cfg.Contexts != nil && cfg.Tasks != nil && cfg.Watchers != nil && cfg.Pipelines != nil && cfg.Variables != nil
 //@     invariant #C18.tasks-non-nil forall k string :: k in cfg.Tasks ==> cfg.Tasks[k] != nil
 
+//@ func (*Loader).Load
+//@   requires loaderOK(cl) && cl.dst != nil && cl.dst.Variables != nil
+//@   modifies *
+//@ func (*Loader).LoadGlobalConfig
+//@   requires loaderOK(cl) && cl.dst != nil
+//@   modifies *
+//@   ensures loaderOK(cl) && cl.dst == old(cl.dst) && cl.imports == old(cl.imports)
 //@ func (*Loader).readFile
 //@   nomod
 //@ func (*Loader).readURL
@@ -134,7 +143,7 @@ package config
 //@   ensures #C17.visited-grows forall f string :: old(cl.imports[f]) ==> cl.imports[f]
 //@   ensures #C17.import-error-propagates nestedFailed ==> result#1 != nil
 //@   loop 1 "range q"
-//@     invariant #same cl == cl0 && loaderOK(cl) && cl.imports == old(cl.imports) && cm != nil
+//@     invariant #same cl == cl0 && loaderOK(cl) && cl.imports == old(cl.imports)
 //@     invariant #C17.visited-grows forall f string :: old(cl.imports[f]) ==> cl.imports[f]
 //@     invariant #C17.no-failure-so-far !nestedFailed
 //@   callsite load
